@@ -119,7 +119,7 @@ def build_admdrv(flavour='plain', extra_sources=()):
     inc = ['-I' + os.path.join(REPO, 'include'), '-I' + bdir, '-I' + os.path.join(REPO, 'submodules', 'rapidxml'),
            '-I' + os.path.join(REPO, 'submodules'), '-I' + hdir]
     hdr_m = _newest_mtime([os.path.join(REPO, 'include'), os.path.join(REPO, 'submodules', 'rapidxml')]
-                          + [os.path.join(hdir, f) for f in os.listdir(hdir) if f.endswith('.hpp')])
+                          + [os.path.join(hdir, f) for f in os.listdir(hdir) if f.endswith(('.hpp', '.inc'))])
     present = [k for k, (src, _f) in DRV_PARTS.items() if os.path.exists(os.path.join(hdir, src))]
     defs = []
     for k in present:
